@@ -21,7 +21,9 @@ Definition big : N := 4294967296.
 Definition opt_eqb (a b : option N) : bool :=
   match a, b with Some x, Some y => x =? y | None, None => true | _, _ => false end.
 Definition mb_eqb (a b : cu_mb) : bool :=
-  (mb_id a =? mb_id b) && (mb_rid a =? mb_rid b) && (mb_name a =? mb_name b) && (mb_uidv a =? mb_uidv b) && Bool.eqb (mb_sub a) (mb_sub b).
+  (mb_id a =? mb_id b) && (mb_rid a =? mb_rid b) && (mb_name a =? mb_name b) && (mb_uidv a =? mb_uidv b) && Bool.eqb (mb_sub a) (mb_sub b)
+  && nlist_eqb (nsort (mb_flags a)) (nsort (mb_flags b)) && nlist_eqb (nsort (mb_perm a)) (nsort (mb_perm b))
+  && nlist_eqb (nsort (mb_attrs a)) (nsort (mb_attrs b)).
 Definition ms_eqb (a b : cu_ms) : bool :=
   (ms_id a =? ms_id b) && opt_eqb (ms_rid a) (ms_rid b) && (ms_lit a =? ms_lit b)
   && nlist_eqb (nsort (ms_flags a)) (nsort (ms_flags b)) && Bool.eqb (ms_del a) (ms_del b).
